@@ -212,7 +212,7 @@ def owner_of_type(t):
     return None
 
 
-def analyse_fn(m, f, rel, summ=None, fsumm=None):
+def analyse_fn(m, f, rel, summ=None, fsumm=None, alias_params=False):
     """returns list of (node id, pointer name, container text, releasing call text)"""
     if not f.cfg:
         return [], 0
@@ -268,16 +268,25 @@ def analyse_fn(m, f, rel, summ=None, fsumm=None):
                 ptr_locals[d["d"]] = d["n"]
             elif d.get("ref") and "d" in d and d.get("init", -1) >= 0 and f.nodes[f.strip(d["init"])]["k"] == "ArraySubscriptExpr":
                 ptr_locals[d["d"]] = d["n"]   # reference to an element of a container's storage
+    seed = set()
+    if alias_params and f.cls in rel and not f.is_static:
+        # a raw element pointer handed to a method of an owning container may point into that container's own storage
+        # (self-append: s.Write(s.First(), n), ss += ss, a << a)
+        elem = {"Qentem::String": "Char_T", "Qentem::StringStream": "Char_T", "Qentem::Array": "Type_T"}.get(f.cls)
+        for p_ in f.params:
+            if elem and p_.get("ptr") and p_.get("pconst") and elem in p_["t"]:
+                ptr_locals[p_["d"]] = p_["n"]
+                seed.add((p_["d"], "this", "valid", ""))
     if not ptr_locals:
         return [], 0
 
     # state: frozenset of (ptr decl id, container key, status, releasing-call text)
     blocks = f.blocks()
     entry = f.cfg["entry"]
-    states = {entry: frozenset()}
+    states = {entry: frozenset(seed)}
     work = [entry]
     findings = {}
-    borrows = set()
+    borrows = set((ptr_locals[d], k) for (d, k, _, _) in seed)
 
     def releases(e):
         """list of container keys whose storage may be released by this element"""
@@ -409,7 +418,7 @@ def analyse_fn(m, f, rel, summ=None, fsumm=None):
     return [(nid, v[0], v[1], v[2]) for nid, v in sorted(findings.items())], len(borrows)
 
 
-def rule_borrow(ctx, m, files, extra_fns=(), rid="BORROW"):
+def rule_borrow(ctx, m, files, extra_fns=(), rid="BORROW", alias_params=False):
     r = Rule(rid, "no storage pointer borrowed from a container is used after a call that may release/reallocate it", floor=1)
     rel = may_release_sets(m)
     if "Qentem::StringStream" not in rel or "expand" not in rel["Qentem::StringStream"] or "Write" not in rel["Qentem::StringStream"]:
@@ -422,7 +431,7 @@ def rule_borrow(ctx, m, files, extra_fns=(), rid="BORROW"):
         fns += m.fns(q, pattern=True, required=False)
     total_borrows = 0
     for f in fns:
-        found, nb = analyse_fn(m, f, rel, summ, fsumm)
+        found, nb = analyse_fn(m, f, rel, summ, fsumm, alias_params)
         total_borrows += nb
         if nb:
             ctx.note_fn(f)
